@@ -306,7 +306,11 @@ def main(argv):
     tb = traceback.format_exc()
     log("harness crashed:\n" + tb)
     broken.append({"kind": "harness", "name": f"harness.{pid.lower()}", "detail": tb[-3000:]})
-    res = None
+    # failures with a concrete input recorded before the crash are still reported
+    from harness import common as _common
+    res = _common.CURRENT_RESULT
+    if res is not None:
+      res.notes.append("the harness crashed; results up to the crash are reported")
 
   corr = {}
   known = [f for f in load_known() if f["property"] == pid]
